@@ -618,7 +618,8 @@ def rule_parts(ctx) -> RuleResult:
             """e (or the expression a local it names was bound to) holds an element / a column of the cells array"""
             if key_of(e) is not None and fl.nodes_of(e):
                 e = fl.resolve(e)[0]
-            for x in ast.walk(e):
+            # what the value is made of (through locals, loop variables running over slices of the array: `for a, b in zip(cells[:-1], cells[1:])`)
+            for x in (fl.atoms(e, skip_index=True) if fl.nodes_of(e) else ast.walk(e)):
                 if isinstance(x, ast.Subscript):
                     b = x.value
                     if key_of(b) is not None and fl.nodes_of(b):
